@@ -167,13 +167,17 @@ def corr_newton(rng, count):
             for k in range(L):
                 if rng.random() < 0.25:
                     stream[k] = float('nan')
-            stream += [float(rng.choice([1e-20, 1.0]))] * 400
+            # the residual is a VECTOR of length nv whose Euclidean norm is the scripted value (a norm that is not the 2-norm -
+            # rms, max - differs from it by a factor that depends on nv); the tail sits on either side of the warning threshold
+            nv = [1, 4, 25, 100][(t // 6) % 4]
+            tail = [1e-20, 1.0, tol * 1e4 * nv ** 0.25, tol * 1e4 / nv ** 0.25][(t // 24) % 4 if t >= 24 else int(rng.integers(0, 4))]
+            stream += [float(tail)] * 400
             cnt = [0]
-            def f(x, stream=stream, cnt=cnt):
+            def f(x, stream=stream, cnt=cnt, nv=nv):
                 v = stream[cnt[0]]; cnt[0] += 1
-                return np.array([v])
-            jac = lambda x: np.array([[1.0]])
-            x0 = np.array([1.0])
+                return np.full(nv, v / np.sqrt(nv))
+            jac = lambda x, nv=nv: np.eye(nv)
+            x0 = np.ones(nv)
         elif kind == 4:   # overflow to inf/NaN
             f = lambda x: np.array([np.exp(x[0] * x[0]) - 2.0, x[1] * 1e200 * x[0]])
             jac = lambda x: np.array([[2 * x[0] * np.exp(x[0] * x[0]), 0.0], [1e200 * x[1], 1e200 * x[0]]]) + 1e-30 * np.eye(2)
@@ -480,6 +484,9 @@ def corr_fmin(rng, count):
                 y = rng.standard_normal(n)
             else:
                 y = np.round(rng.standard_normal(n), 0)        # ties
+            if kind in (0, 3) and n > 4:
+                # the smallest sample on the last / first / next-to-last / second array element in turn (index arithmetic at the wrap)
+                y = np.roll(y, [n - 1, 0, n - 2, 1][(t // 5) % 4] - int(np.argmin(y)))
             cap.clear()
             try:
                 val = U.fourier_minimum(y); err = None
